@@ -73,6 +73,7 @@ type VC struct {
 	safeProps []string
 	noSafety  bool
 	typedPtrs bool
+	wfHeap    bool
 	reveal    map[string]bool
 	opq       map[string]*opqInfo
 	splitInfo string
@@ -524,6 +525,9 @@ func trunc(s string, n int) string {
 // quantified spec expression (where no load instruction supplies the type invariant) could denote
 // an object that a later allocation "creates".
 func (vc *VC) heapWF(h Term, key string, al string) {
+	if !vc.wfHeap {
+		return // opt-in per function (`wfheap`): the axioms slow down proofs that do not need them
+	}
 	var wf, inner string
 	switch {
 	case strings.HasPrefix(key, "P_"):
